@@ -1217,6 +1217,18 @@ def AN(kw, tail, *a, **k):
     return Sample(kw, 'unicast 10.0.0.0/24 next-hop 1.2.3.4 ' + tail, *a, **dict(dict(section='ipv4', api=None, in_file=False), **k))
 
 
+def _big_flow(nbig, nsmall):
+    """source /24 (5 octets) + destination-port with nbig two-octet values (3 octets each) and nsmall one-octet values (2 each):
+    the rule is 6 + 3 nbig + 2 nsmall octets long - around the 239/240 switch of the NLRI length form (RFC 8955 4.1)"""
+    values = [300 + i for i in range(nbig)] + [10 + i for i in range(nsmall)]
+    terms = ' '.join('=%d' % x for x in values)
+    return FS('destination-port', 'source 10.0.0.0/24 ; destination-port [ %s ] ;' % terms, 'discard ;', 'accept',
+              w_flow_numeric(5, [(0, EQ)] * len(values)), values)
+
+
+# rules of 238, 239 (the last one-octet length), 240 (the first two-octet length), 241 and 242 octets
+SAMPLES['lexical/flow'] += [_big_flow(76, 2), _big_flow(77, 1), _big_flow(78, 0), _big_flow(77, 2), _big_flow(78, 1)]
+
 SAMPLES['lexical/announce-family'] = [
     AN('origin', 'origin egp', 'accept', w_origin, [1]), AN('origin', 'origin foo', 'refuse'), AN('originator-id', 'originator-id 1.2.3.4', 'accept', w_origid, [1, 2, 3, 4]),
     AN('originator-id', 'originator-id 256.1.1.1', 'refuse'), AN('cluster-list', 'cluster-list 1.2.3.4', 'accept'), AN('cluster-list', 'cluster-list [ 1.2.3.4 1.2.3.5 ]', 'accept'),
